@@ -56,6 +56,8 @@ pub struct WireState {
 	pub tx_dropped_stamp: Option<u64>,
 	pub rx_dropped_stamp: Option<u64>,
 	pub max_send_yield: u32,
+	/// 0 = `close()` returns after a few yields, 1 = takes 3 s of virtual time, 2 = never returns
+	pub close_mode: u32,
 	// single planned fault, fired at the `fault_at`-th seam event (tx / peer-push / rx-deliver)
 	pub seam_count: u64,
 	pub fault_at: Option<u64>,
@@ -219,6 +221,17 @@ impl TransportSenderT for Tx {
 		let wire = self.0.clone();
 		async move {
 			rt::yield_n(rt::draw("close-yield", 3)).await;
+			let mode = wire.lock().close_mode;
+			if mode > 0 {
+				let st = rt::event("tx-close-begin", format!("mode={mode}"));
+				wire.lock().close_called_stamp.get_or_insert(st);
+				rt::probe(if mode == 1 { "fault.slow_close" } else { "fault.hanging_close" });
+				if mode == 1 {
+					tokio::time::sleep(std::time::Duration::from_secs(3)).await;
+				} else {
+					std::future::pending::<()>().await;
+				}
+			}
 			let mut w = wire.lock();
 			let st = rt::event("tx-close", "");
 			w.close_called_stamp.get_or_insert(st);
